@@ -49,7 +49,7 @@ from contracts.moddb import PREFIX_TESTS as _PT
 for _f, _p in _PRED.items():
     C[MD + _f] = dict(params={_p: 'str'}, returns='bool', pure=True, trusted=True,
                       bounded_by=('pure prefix test: proved against this same contract in contracts/moddb.py (C10)' if _f in _PT else
-                                  'prefix test OR membership in the vocabulary (id / name): bounded/C10.py'),
+                                  'prefix test OR membership in the vocabulary (id / name): proved against its definition in contracts/modresolve.py (C10)'),
                       ensures=([('prefix-test', 'result == (' + ' or '.join("iprefix(%s, '%s')" % (_p, x) for x in _PT[_f][1]) + ')')] if _f in _PT else []))
 for _v in ('gno', 'xlmod', 'resid', 'psi', 'unimod'):
     C[MD + 'parse_%s_comp' % _v] = dict(params=dict(mod_str='str'), returns='str', pure=True, trusted=True, raises={'ValueError': None},
